@@ -24,8 +24,11 @@ CONSTANTS MaxLen, MaxDepth, TokenKinds,
           MinFns, MaxFns,   \* number of function bodies of a module: a token F ends one body and starts the next
           ElseFlagCleared   \* TRUE: Statement::If clears is_naked_else_branch before its then-branch (the repaired code)
 
-\* (M: a call statement `h();`, V: a declaration -- every kind of statement in every context)
-Simple == {"S", "G", "LP", "L", "V", "M"}
+\* (M: a call statement `h();`, V: a declaration -- every kind of statement in every context;
+\*  MX, MY, SX: statements that ALSO carry an error of a later analysis -- a call with an excess argument (E511), a call
+\*  whose argument lacks an address-of (E513/E512), an assignment to a constant (E530).  The rule treats them as plain
+\*  statements: a misplaced one still gets its E840 whatever else is wrong with it, seeded change C06g)
+Simple == {"S", "G", "LP", "L", "V", "M", "MX", "MY", "SX"}
 
 (***************************************************************************)
 (* Structure.                                                              *)
